@@ -70,6 +70,7 @@ theorem inner_ok {S : Array Char} {g : Array Nat} {c : Char} {j : Nat}
         exact ⟨k, i, rfl, hinv, Or.inr (by rw [hsd, hsj, hcd])⟩
       · rw [if_neg hcd]
         have hne : c.toNat ≠ (S[k + i]'(by omega)).toNat := fun e => hcd (Char.toNat_inj.mp e)
+        rw [if_neg (fun hh => by omega)]
         by_cases hlt' : c.toNat < (S[k + i]'(by omega)).toNat
         · rw [if_pos hlt']
           have := hinv.step_lt (by omega) (by rw [hsd, hsj]; exact hlt')
@@ -97,9 +98,10 @@ theorem step_ok {S : Array Char} {st : BoothState} {j : Nat}
   have hd : S[k' + i']? = some (S[k' + i']'(by omega)) := Array.getElem?_eq_getElem (by omega)
   have hsd : sig S (k' + i') = (S[k' + i']'(by omega)).toNat := sig_of_get hd
   unfold boothStep
-  simp only [hc, hi0, hrun, hd, Option.bind_eq_bind, Option.bind_some]
+  have hk1 : st.k + 1 ≤ j := by omega
+  simp only [hc, if_pos hk1, hi0, hrun, hd, Option.bind_eq_bind, Option.bind_some]
   by_cases hcd : S[j]'hj = S[k' + i']'(by omega)
-  · rw [if_neg (fun hne => hne hcd), if_pos (by omega)]
+  · rw [if_neg (fun hne => hne hcd), if_pos ⟨by omega, by omega⟩]
     refine ⟨_, rfl, by simp [hg], ?_⟩
     show Inv (sig S) (gam (st.g.set! (j - k') (i' + 1))) (j + 1) k'
     rw [gam_set _ _ (by omega)]
@@ -117,13 +119,13 @@ theorem step_ok {S : Array Char} {st : BoothState} {j : Nat}
     simp only [hk, Option.bind_some]
     by_cases hlt : (S[j]'hj).toNat < (S[k']'(by omega)).toNat
     · simp only [if_pos hlt]
-      rw [if_pos (by omega)]
+      rw [if_pos ⟨by omega, by omega⟩]
       refine ⟨_, rfl, by simp [hg], ?_⟩
       show Inv (sig S) (gam (st.g.set! (j - j) 0)) (j + 1) j
       rw [Nat.sub_self, gam_set _ _ (by omega)]
       exact hinv.exit_lt (by rw [hsk, hsj]; exact hlt)
     · simp only [if_neg hlt]
-      rw [if_pos (by omega)]
+      rw [if_pos ⟨by omega, by omega⟩]
       refine ⟨_, rfl, by simp [hg], ?_⟩
       show Inv (sig S) (gam (st.g.set! (j - k') 0)) (j + 1) k'
       rw [gam_set _ _ (by omega)]
